@@ -12,7 +12,7 @@ def handlers : List (List SExp → Option SExp) :=
   [ leaf
   , state
   , fld
-  , engine
+  , engineAll
   , term
   , rules
   ]
